@@ -109,6 +109,10 @@ func (vc *VC) loopHeader(fr *frame, n *Node, phis []*ssa.Phi, entryVals map[*ssa
 	e := vc.enc
 	lc := l.contract
 	pos := vc.pos(firstPos(l.header))
+	if fr.loopPre == nil {
+		fr.loopPre = map[int]*State{}
+	}
+	fr.loopPre[l.ordinal] = n.st.clone()
 	// 1. entry obligations
 	if lc != nil {
 		for k, inv := range lc.Invariants {
@@ -268,7 +272,7 @@ func (vc *VC) loopCtx(fr *frame, l *LoopInfo, hdr, envNode *Node, phiVals map[*s
 		return vc.resolveAtHeader(fr, l, hdr, envNode, phiVals, st, name)
 	}
 	entryLookup := func(name string) (Val, bool) { return vc.paramLookup(fr, name) }
-	return &SpecCtx{vc: vc, lookup: lookup, st: st, oldSt: fr.entrySt, oldLookup: entryLookup, pkg: fr.fn.Pkg.Pkg, fnName: fr.fn.Name()}
+	return &SpecCtx{vc: vc, lookup: lookup, st: st, oldSt: fr.entrySt, oldLookup: entryLookup, pkg: fr.fn.Pkg.Pkg, fnName: fr.fn.Name(), fr: fr}
 }
 
 func (vc *VC) evalLoopClauseAt(fr *frame, l *LoopInfo, hdr, envNode *Node, phiVals map[*ssa.Phi]Val, st *State, ex Expr) (string, error) {
@@ -1041,6 +1045,26 @@ func (vc *VC) execGo(fr *frame, n *Node, x *ssa.Go) {
 		fr.goMods = newModSet()
 	}
 	fr.goMods.union(ms)
+	// captured local variables the goroutine only loads from: nothing it calls can reach the cell
+	// (its address is never passed on), so the value survives the barrier
+	if mc, ok := x.Call.Value.(*ssa.MakeClosure); ok && callee != nil && len(callee.AnonFuncs) == 0 {
+		for i, b := range mc.Bindings {
+			if _, isAlloc := b.(*ssa.Alloc); !isAlloc || i >= len(callee.FreeVars) {
+				continue
+			}
+			ro := true
+			if refs := callee.FreeVars[i].Referrers(); refs != nil {
+				for _, r := range *refs {
+					if u, ok := r.(*ssa.UnOp); !ok || u.Op != token.MUL {
+						ro = false
+					}
+				}
+			}
+			if ro {
+				fr.goReadOnly = append(fr.goReadOnly, b)
+			}
+		}
+	}
 	vc.enc.notes["go statement: spawned body not interleaved; its writes are havoced at the next WaitGroup.Wait (race freedom is the spawn rule's obligation)"] = true
 }
 
